@@ -299,6 +299,12 @@ func (o Op) String() string {
 		return fmt.Sprintf("Save(%+v)", o.V)
 	case "saveslice":
 		return fmt.Sprintf("Save(&[]T%+v)", o.Vs)
+	case "upsertslice":
+		w := ""
+		if o.OCWhere {
+			w = " WHERE recs.age < excluded.age"
+		}
+		return fmt.Sprintf("Create(&[]T%+v) OnConflict{%s %v%s}", o.Vs, o.Rule, o.Subset, w)
 	case "upsert":
 		w := ""
 		if o.OCWhere {
@@ -332,12 +338,16 @@ func (o Op) String() string {
 // Outcome of an operation, in the form compared between model and database and
 // between metamorphic variants.
 type Outcome struct {
-	AutoID       bool // the stored row gets a database-assigned key (value not predicted)
-	Err          bool
-	ErrText      string
-	Out          Row // returned / back-filled record
-	OutValid     bool
-	Stored       *Row // the row the table ends up with, when it differs from Out (database defaults)
+	AutoID   bool // the stored row gets a database-assigned key (value not predicted)
+	Err      bool
+	ErrText  string
+	Out      Row // returned / back-filled record
+	OutValid bool
+	Stored   *Row // the row the table ends up with, when it differs from Out (database defaults)
+	// upsertslice: keys the records carry after the call (back-filled), and for the expectation the new
+	// rows whose key the database assigns (matched by their unique code afterwards)
+	IDs          []uint
+	Fresh        []Row
 	RowsAffected int64
 	RAValid      bool
 }
@@ -442,6 +452,15 @@ func preClause(name string) clause.OnConflict {
 	return clause.OnConflict{Columns: []clause.Column{{Name: "code"}}, DoNothing: true}
 }
 
+func contains(l []string, x string) bool {
+	for _, y := range l {
+		if y == x {
+			return true
+		}
+	}
+	return false
+}
+
 func fixedValue(c string) interface{} {
 	if c == "age" {
 		return 9
@@ -457,6 +476,8 @@ func chainLen(o Op) int {
 			return 1
 		}
 		return 0
+	case "upsertslice":
+		return 1
 	case "upsert":
 		n := 1
 		if o.MapCols != nil {
@@ -503,6 +524,24 @@ func run(d *testdb.DB, kind int, o Op, v variant) Outcome {
 			sl.Elem().Set(reflect.Append(sl.Elem(), recOf(kind, x).Elem()))
 		}
 		res = tx.Save(sl.Interface())
+	case "upsertslice":
+		oc := clause.OnConflict{UpdateAll: true}
+		if o.Rule == "updates-id" {
+			oc = clause.OnConflict{Columns: []clause.Column{{Name: "id"}}, DoUpdates: clause.AssignmentColumns(append([]string(nil), o.Subset...))}
+		}
+		if o.OCWhere {
+			oc.Where = clause.Where{Exprs: []clause.Expression{clause.Expr{SQL: "recs.age < excluded.age"}}}
+		}
+		tx := v.apply(db, 0).Clauses(oc)
+		tx = v.apply(tx, 1)
+		sl := reflect.New(reflect.SliceOf(newRec(kind).Elem().Type()))
+		for _, x := range o.Vs {
+			sl.Elem().Set(reflect.Append(sl.Elem(), recOf(kind, x).Elem()))
+		}
+		res = tx.Create(sl.Interface())
+		for i := 0; i < sl.Elem().Len(); i++ {
+			out.IDs = append(out.IDs, uint(sl.Elem().Index(i).FieldByName("ID").Uint()))
+		}
 	case "upsert":
 		var oc clause.OnConflict
 		switch o.Rule {
@@ -661,6 +700,25 @@ func expect(m *Model, o Op) (exp Outcome) {
 		}
 		*m = *w
 		return Outcome{RowsAffected: int64(len(o.Vs)), RAValid: true}
+	case "upsertslice":
+		// one statement: the records are applied in order, each like a single upsert with the same rule
+		w := m.clone()
+		var out Outcome
+		for _, v := range o.Vs {
+			one := expect(w, Op{Kind: "upsert", V: v, Rule: map[string]string{"updateall": "updateall", "updates-id": "updates-id"}[o.Rule], Subset: o.Subset, OCWhere: o.OCWhere})
+			if one.Err {
+				return Outcome{Err: true}
+			}
+			if one.AutoID {
+				r := one.Out
+				if one.Stored != nil {
+					r = *one.Stored
+				}
+				out.Fresh = append(out.Fresh, r)
+			}
+		}
+		*m = *w
+		return out
 	case "upsert":
 		v := o.V
 		supplied := func(c string) bool {
@@ -1132,11 +1190,11 @@ func genAttr(t *rapid.T, label string, cols []string, allowZero bool) Attr {
 }
 
 func genOp(t *rapid.T, m *Model) Op {
-	kinds := []string{"save", "save", "saveslice", "upsert", "upsert", "upsert", "firstorinit", "firstorcreate", "firstorcreate"}
+	kinds := []string{"save", "save", "saveslice", "upsertslice", "upsert", "upsert", "upsert", "firstorinit", "firstorcreate", "firstorcreate"}
 	if m.Kind == kAppKey {
 		// FirstOrCreate would store its new record under key 0, and gorm treats a zero key as "no key"
 		// from then on (documented): records of this model are only written with a key
-		kinds = []string{"save", "save", "saveslice", "upsert", "upsert", "upsert", "firstorinit"}
+		kinds = []string{"save", "save", "saveslice", "upsertslice", "upsert", "upsert", "upsert", "firstorinit"}
 	}
 	if m.Kind == kDef {
 		// Save of a slice is an upsert with UpdateAll, which leaves computed-default columns alone: what
@@ -1151,6 +1209,61 @@ func genOp(t *rapid.T, m *Model) Op {
 		if o.V.ID != 0 && rapid.IntRange(0, 4).Draw(t, "preoc") == 0 {
 			// with a zero key Save is a plain Create and the caller's rule is the one in effect
 			o.PreOC = rapid.SampledFrom([]string{"nothing-code", "updates-code"}).Draw(t, "preocRule")
+		}
+	case "upsertslice":
+		// 2-3 records, some with a key (existing or not), some without; conflicts are by key only: a record
+		// whose key exists carries that row's code, every other record a code nobody holds. A condition on
+		// the rule is generated so that it holds (a conditional update that does not happen returns no row,
+		// and which record a missing row belongs to is not defined)
+		o.Rule = rapid.SampledFrom([]string{"updateall", "updates-id"}).Draw(t, "rule")
+		if o.Rule == "updates-id" {
+			o.Subset = []string{"name", "age", "note"}[:rapid.IntRange(1, 3).Draw(t, "nsub")]
+			if !contains(o.Subset, "age") {
+				o.Subset = append(o.Subset, "age")
+			}
+		}
+		o.OCWhere = rapid.Bool().Draw(t, "ocwhere")
+		ids := rapid.Permutation([]int{1, 2, 3, 4, 5}).Draw(t, "ids")
+		freshCodes := []string{"b1", "b2", "b3", "b4"}
+		fc := 0
+		nextFresh := func() string {
+			for fc < len(freshCodes) {
+				c := freshCodes[fc]
+				fc++
+				if m.byCode(c) == nil {
+					return c
+				}
+			}
+			for {
+				fc++
+				if c := fmt.Sprintf("b%d", 100+fc); m.byCode(c) == nil {
+					return c
+				}
+			}
+		}
+		for i, n := 0, rapid.IntRange(2, 3).Draw(t, "n"); i < n; i++ {
+			v := genVal(t, fmt.Sprintf("v%d", i), m.Kind)
+			v.ID = 0
+			if m.Kind == kAppKey || rapid.Bool().Draw(t, fmt.Sprintf("preset%d", i)) {
+				v.ID = uint(ids[i])
+				// next to records without a key, a preset key above every key ever used could be the very
+				// key the database hands to one of them in the same statement
+				if m.Kind != kAppKey && v.ID > m.MaxEver {
+					v.ID = 0
+				}
+			}
+			if r, ok := m.Rows[v.ID]; ok && v.ID != 0 {
+				v.Code = r.Code
+				if o.OCWhere {
+					v.Age = r.Age + 1 // the condition holds (a NULL age never does: then no condition)
+					if r.Nulls&nullAge != 0 {
+						o.OCWhere = false
+					}
+				}
+			} else {
+				v.Code = nextFresh()
+			}
+			o.Vs = append(o.Vs, v)
 		}
 	case "saveslice":
 		ids := rapid.Permutation([]int{1, 2, 3, 4, 5}).Draw(t, "ids")
@@ -1320,7 +1433,7 @@ func TestC16(t *testing.T) {
 				collision = true
 				classes["outcome:conflict-error"] = true
 			}
-			if o.Kind == "saveslice" {
+			if o.Kind == "saveslice" || o.Kind == "upsertslice" {
 				for _, v := range o.Vs {
 					if _, ok := pre.Rows[v.ID]; ok {
 						collision = true
@@ -1376,6 +1489,41 @@ func TestC16(t *testing.T) {
 			fail := func(format string, a ...interface{}) {
 				rt.Fatalf("C16 violated: %s\n  operation %d: %s\n  table before: %v\n  table after:  %v\n  expected:     %v\n  history: %s",
 					fmt.Sprintf(format, a...), i+1, o, pre.sorted(), rows, m.sorted(), desc.String())
+			}
+			if o.Kind == "upsertslice" && !got.Err && !exp.Err {
+				// adopt the keys the database assigned to the new rows (matched by their unique code)
+				taken := map[uint]bool{}
+				for _, fr := range exp.Fresh {
+					found := false
+					for _, r := range rows {
+						if _, old := pre.Rows[r.ID]; !old && r.Code == fr.Code && !taken[r.ID] {
+							if r.ID <= pre.MaxEver {
+								fail("new row %q got key %d which is not above the highest key ever used (%d)", fr.Code, r.ID, pre.MaxEver)
+							}
+							fr.ID, found = r.ID, true
+							taken[r.ID] = true
+							m.put(fr)
+							break
+						}
+					}
+					if !found {
+						fail("the new record with code %q was not stored", fr.Code)
+					}
+				}
+				if !curDims.NoReturning {
+					// the records identify the rows they were stored in (a later Save of the slice relies on it)
+					for k, v := range o.Vs {
+						want := v.ID
+						if want == 0 {
+							if r := m.byCode(v.Code); r != nil {
+								want = r.ID
+							}
+						}
+						if k < len(got.IDs) && got.IDs[k] != want {
+							fail("record %d of the slice (code %q) carries key %d after the call, its row has key %d (keys after the call: %v)", k, v.Code, got.IDs[k], want, got.IDs)
+						}
+					}
+				}
 			}
 			if exp.AutoID && !got.Err {
 				// adopt the key the database assigned: exactly one new row, key above every key ever used
@@ -1461,7 +1609,7 @@ func TestC16(t *testing.T) {
 					if pos < n {
 						midVariant = true
 					}
-					same := vgot.Err == got.Err && vgot.Out == got.Out && vgot.RowsAffected == got.RowsAffected && rowsEqual(vrows, rows)
+					same := vgot.Err == got.Err && vgot.Out == got.Out && vgot.RowsAffected == got.RowsAffected && rowsEqual(vrows, rows) && fmt.Sprint(vgot.IDs) == fmt.Sprint(got.IDs)
 					if o.Kind != "save" && o.Kind != "saveslice" { // the baseline table of a Save was written twice: timestamps may differ
 						same = same && vfull == full
 					}
